@@ -410,6 +410,8 @@ def gen_fmt(rng: random.Random, d: dict, rich: bool = True) -> dict:
     if rng.random() < 0.2:
         f["sat_x"] = True
     if rng.random() < 0.2:
+        f["cgap"] = rng.choice(["\t", "  ", "\t ", " \t", "\t\t"])
+    if rng.random() < 0.2:
         f["numx"] = rng.randrange(7)
     if len(d["secs"]) == 2 and rng.random() < 0.3:
         f["marker"] = rng.choice(["----", "-----", "------------------------------"])
